@@ -25,6 +25,15 @@ pub enum Resume {
     StepOut(ThreadSel),
 }
 
+impl Reaction {
+    pub fn resume_for(&self, pause_stop: bool) -> Resume {
+        match (pause_stop, self.on_pause) {
+            (true, Some(r)) => r,
+            _ => self.resume,
+        }
+    }
+}
+
 impl Resume {
     pub fn name(&self) -> &'static str {
         match self {
@@ -48,6 +57,10 @@ impl Resume {
 pub struct BpSel {
     pub executed: bool,
     pub idx: u16,
+    /// Index into the statements executed at call depth >= 1 (bodies of called FUNCTIONs /
+    /// FUNCTION_BLOCKs); falls back to the executed statements when there is none.
+    #[serde(default)]
+    pub deep: bool,
 }
 
 #[derive(Clone, Debug, PartialEq, Eq, Serialize, Deserialize)]
@@ -73,6 +86,9 @@ pub struct Reaction {
     #[serde(default)]
     pub write: Option<WriteSel>,
     pub resume: Resume,
+    /// Used instead of `resume` when the stop being answered is a pause or entry stop.
+    #[serde(default)]
+    pub on_pause: Option<Resume>,
     /// Racy driver only: delay before reacting.
     #[serde(default)]
     pub delay: Delay,
@@ -115,8 +131,22 @@ impl Delay {
     }
 }
 
-/// Deterministic script: commands are only issued before the cycle thread starts and in
-/// reaction to a stop notification.
+/// A command issued between two cycles (the cycle thread waits at the boundary, so the
+/// command meets a *running* debugger at a known point of the trace).
+#[derive(Clone, Debug, PartialEq, Eq, Serialize, Deserialize)]
+pub enum BoundaryCmd {
+    Pause(ThreadSel),
+    /// `DebugControl::pause_entry` (stop reason Entry).
+    Entry,
+    SetBps(Vec<BpSel>),
+    ClearBps,
+    Continue,
+    /// A step command while running (not predicted).
+    Step(Resume),
+}
+
+/// Deterministic script: commands are only issued before the cycle thread starts, between two
+/// cycles and in reaction to a stop notification.
 #[derive(Clone, Debug, PartialEq, Eq, Serialize, Deserialize)]
 pub struct LockScript {
     pub bps: Vec<BpSel>,
@@ -124,6 +154,12 @@ pub struct LockScript {
     /// A step command issued before the start (while running).
     pub early_step: Option<Resume>,
     pub reactions: Vec<Reaction>,
+    /// `pause_entry()` before the start instead of `pause`.
+    #[serde(default)]
+    pub entry: bool,
+    /// `between[k]`: commands issued after cycle k+1 has completed.
+    #[serde(default)]
+    pub between: Vec<Vec<BoundaryCmd>>,
 }
 
 #[derive(Clone, Debug, PartialEq, Eq, Serialize, Deserialize)]
@@ -169,7 +205,48 @@ fn gen_bp(r: &mut Reader) -> BpSel {
     BpSel {
         executed,
         idx: (r.word() >> 16) as u16,
+        deep: false,
     }
+}
+
+fn gen_deep_bp(r: &mut Reader) -> BpSel {
+    BpSel {
+        executed: true,
+        idx: (r.word() >> 16) as u16,
+        deep: true,
+    }
+}
+
+fn gen_boundary_pause(r: &mut Reader) -> BoundaryCmd {
+    match r.weighted(&[4, 4, 1, 1]) {
+        0 => BoundaryCmd::Pause(ThreadSel::Unspecified),
+        1 => BoundaryCmd::Pause(ThreadSel::Other(r.pick(4) as u8)),
+        2 => BoundaryCmd::Entry,
+        _ => BoundaryCmd::Pause(ThreadSel::Bogus),
+    }
+}
+
+/// Commands for the cycle boundaries; `p_num/p_den`: chance of a pause at a boundary.
+fn gen_between(r: &mut Reader, p_num: u32, p_den: u32, others: bool) -> Vec<Vec<BoundaryCmd>> {
+    let n = r.pick(9);
+    let mut out = Vec::new();
+    for _ in 0..n {
+        let mut cmds = Vec::new();
+        if others {
+            match r.weighted(&[12, 2, 1, 1, 1]) {
+                1 => cmds.push(BoundaryCmd::SetBps(gen_bps(r, &[0, 3, 2, 1]))),
+                2 => cmds.push(BoundaryCmd::ClearBps),
+                3 => cmds.push(BoundaryCmd::Continue),
+                4 => cmds.push(BoundaryCmd::Step(gen_resume(r, &[2, 2, 2, 0]))),
+                _ => {}
+            }
+        }
+        if r.chance(p_num, p_den) {
+            cmds.push(gen_boundary_pause(r));
+        }
+        out.push(cmds);
+    }
+    out
 }
 
 fn gen_bps(r: &mut Reader, weights: &[u32]) -> Vec<BpSel> {
@@ -202,25 +279,84 @@ fn gen_reaction(r: &mut Reader, weights: &[u32; 4], racy: bool, writes: bool) ->
         None
     };
     let resume = gen_resume(r, weights);
+    let on_pause = if racy && r.chance(1, 2) {
+        Some(match r.weighted(&[5, 3]) {
+            0 => Resume::StepOver(ThreadSel::Current),
+            _ => Resume::StepOut(ThreadSel::Current),
+        })
+    } else {
+        None
+    };
     let delay = if racy { Delay::generate(r) } else { Delay::None };
     Reaction {
         bps,
         noise_pause,
         write,
         resume,
+        on_pause,
         delay,
     }
 }
 
 impl LockScript {
     pub fn generate(r: &mut Reader) -> LockScript {
-        // flavour: mixed | step-in walk over the whole trace | breakpoints + continue
-        let flavour = r.weighted(&[7, 2, 2]);
+        // flavour: mixed | step-in walk over the whole trace | breakpoints + continue |
+        // steps issued from pause stops
+        let flavour = r.weighted(&[7, 2, 2, 5]);
         let writes = r.chance(1, 4);
         match flavour {
+            3 => {
+                // A stop deep inside a call, continue, a pause at the next cycle boundary
+                // (it lands on a statement at depth 0), then step-over / step-out / step-in:
+                // the origin of the step is a pause (or entry) stop.
+                let mut bps: Vec<BpSel> = (0..1 + r.pick(3)).map(|_| gen_deep_bp(r)).collect();
+                if r.chance(1, 4) {
+                    bps.push(gen_bp(r));
+                }
+                let n = 3 + r.pick(22);
+                let reactions = (0..n)
+                    .map(|_| {
+                        let bps = match r.weighted(&[14, 2, 2]) {
+                            0 => BpEdit::Keep,
+                            1 => BpEdit::Set((0..1 + r.pick(2)).map(|_| gen_deep_bp(r)).collect()),
+                            _ => BpEdit::Clear,
+                        };
+                        Reaction {
+                            bps,
+                            noise_pause: if r.chance(1, 8) { Some(gen_sel(r)) } else { None },
+                            write: None,
+                            resume: gen_resume(r, &[1, 2, 1, 10]),
+                            on_pause: Some(match r.weighted(&[6, 4, 2]) {
+                                0 => Resume::StepOver(if r.chance(1, 6) {
+                                    gen_sel(r)
+                                } else {
+                                    ThreadSel::Current
+                                }),
+                                1 => Resume::StepOut(if r.chance(1, 6) {
+                                    gen_sel(r)
+                                } else {
+                                    ThreadSel::Current
+                                }),
+                                _ => Resume::StepIn(ThreadSel::Current),
+                            }),
+                            delay: Delay::None,
+                        }
+                    })
+                    .collect();
+                LockScript {
+                    bps,
+                    pause: None,
+                    early_step: None,
+                    reactions,
+                    entry: false,
+                    between: gen_between(r, 3, 4, false),
+                }
+            }
             1 => {
                 let n = 8 + r.pick(72);
                 LockScript {
+                    entry: r.chance(1, 4),
+                    between: vec![],
                     bps: vec![],
                     pause: Some(ThreadSel::Unspecified),
                     early_step: None,
@@ -234,6 +370,7 @@ impl LockScript {
                             } else {
                                 ThreadSel::Current
                             }),
+                            on_pause: None,
                             delay: Delay::None,
                         })
                         .collect(),
@@ -249,6 +386,8 @@ impl LockScript {
                     reactions: (0..n)
                         .map(|_| gen_reaction(r, &[1, 1, 1, 8], false, writes))
                         .collect(),
+                    entry: false,
+                    between: if writes { vec![] } else { gen_between(r, 1, 4, true) },
                 }
             }
             _ => {
@@ -268,9 +407,11 @@ impl LockScript {
                     bps.push(BpSel {
                         executed: true,
                         idx: 0,
+                        deep: false,
                     });
                 }
                 let n = 1 + r.pick(24);
+                let entry = pause.is_none() && early_step.is_none() && r.chance(1, 8);
                 LockScript {
                     bps,
                     pause,
@@ -278,6 +419,8 @@ impl LockScript {
                     reactions: (0..n)
                         .map(|_| gen_reaction(r, &[4, 4, 3, 2], false, writes))
                         .collect(),
+                    entry,
+                    between: if writes { vec![] } else { gen_between(r, 1, 3, true) },
                 }
             }
         }
